@@ -98,6 +98,26 @@ func runC07(c *runCfg) error {
 			break
 		}
 	}
+	// several connections deliberately using the same names, every interleaving of their messages sampled
+	rounds := 150
+	if c.tier == "thorough" {
+		rounds = 3000
+	}
+	for r := 0; r < rounds; r++ {
+		var cases []*caseT
+		for k := 0; k < 2+g.rng.Intn(2); k++ {
+			var msgs [][]byte
+			for j := 3 + g.rng.Intn(5); j > 0; j-- {
+				msgs = append(msgs, alphabet[g.rng.Intn(len(alphabet))])
+			}
+			msgs = append(msgs, mSync(), mExecute(names[0], 0), mExecute(names[1], 0), mSync())
+			cs := lockCase(0, "concurrent", cfg, startupMsg("user", fmt.Sprintf("u%d", k)), msgs)
+			cs.id = fmt.Sprintf("%d.%d", id, k)
+			cases = append(cases, cs)
+		}
+		emitMulti(c, "concurrent", cases, g.schedule(cases), false)
+		id++
+	}
 	n := 500
 	if c.tier == "thorough" {
 		n = 10000
